@@ -80,6 +80,17 @@ CHECKS = {
             'every observed death went through cleanup (no zombies, pipes closed); refutation for the pre-fix truncated-reply handling. Tied to /repo per run with no source hook: the Environment\'s executable is harness/c14_proxy.py, which relays the real helper\'s pipes frame by frame and '
             'injects the scheduled fault (kill before/after relaying, truncated reply, at every request index of several scenarios, up to 3 consecutive crashes, create/drop cycles); the Gallina check_case must reproduce every per-op observation and the whole wire log.',
             'Coq kernel + vm_compute; asynchronous exceptions inside _send and OS-level pipe behaviour are outside the model; hang detection is a watchdog.'),
+    'C17': ('Coq proof of position arithmetic (split_lines, leaf start = offset of its text, line code, definition ranges, name enumeration) + vm_compute check of the consistency hypothesis on real parso trees and of every reported position',
+            'Theorems (16, closed): concat(split_lines s) = s, the exact shape and count of lines, and equality of the model with the algorithm parso actually runs; in a consistent tree the code lines sliced at a leaf\'s recorded (line, col) give its value (exactly, for identifiers), '
+            'get_line_code returns exactly that line, the definition range encloses the name, and get_names is a permutation of the selected name leaves sorted by position, each exactly once, definitions-only = the is_definition leaves; refutation for BOM-prefixed buffers. '
+            'Tied to /repo per run: real parso trees (corpus windows + generated sources in LF/CRLF/CR/mixed/no-final-newline, tabs, form feeds, unicode, continuations) are serialised and `consistent` is evaluated in Coq on each (the hypothesis parso must meet); '
+            'every Name/Completion/Signature returned by the query methods that points into the buffer or a project file is checked (text at position, range encloses, get_line_code), get_names vs tokenize, is_definition vs ast binding contexts.',
+            'Coq kernel + vm_compute; parso\'s is_definition/get_definition are modelled, not verified.'),
+    'C10': ('Coq proof that jedi\'s import walk agrees with a model of importlib on every file system and sys.path, level rewriting = _resolve_name, dotted-name round trip + four-corner vm_compute correspondence (jedi, CPython, both models)',
+            'Theorems (14, closed): the relative-level rewrite equals importlib._resolve_name for 1 <= level <= |package| (beyond: characterised, no agreement claimed); import_module_by_names returns the same file / namespace directories / nothing as a model of _find_and_load on every FS and sys.path, also with jedi\'s module cache; '
+            'whole import / from-import / star-import statements resolve alike under three hypotheses, each shown necessary by a witness; transform_path_to_dotted characterised and its round trip proved; refutation for the pre-fix string-prefix rule. '
+            'Tied to /repo per run: generated directory trees (modules, packages, namespace dirs, clashes, several roots) x importing files x import forms: Script.infer/goto(follow_imports) vs the jedi model, real CPython imports in a subprocess vs the importlib model, jedi vs CPython directly, and the derived dotted name of every file.',
+            'Coq kernel + vm_compute; .pyi stubs in the walk, pkgutil-style namespaces, __all__ and path-less scripts are outside the model.'),
 }
 
 NOT_YET = {
